@@ -327,6 +327,10 @@ class BaseCommand(FlockMixin, ABC):
             exit_code = await self.run()
         except KeyboardInterrupt:
             exit_code = 128 + signal.SIGINT
+        except asyncio.CancelledError:
+            # asyncio.run() delivers Ctrl-C as a cancellation of the main task
+            exit_code = 128 + signal.SIGINT
+            raise
         # Ensure that META.json gets written in the case a
         # command calls sys.exit().
         except SystemExit as e:
